@@ -101,7 +101,7 @@ theorem parseGeneric_leaf_attr (cx : XCtx) (k an s rest : Bytes) (E : List (Opti
     rw [hc1i]
     simp only [parseAttribute, hc1s, hc1p, hc1n, e2, hc2v, hs, e3, hc3s]
     simp
-  simp only [parseGeneric, hpfx, hname, hmk, parseExtArg, e1, Option.bind_some]
+  simp only [parseGeneric, hpfx, hname, hmk, remapArg_kw, parseExtArg, e1, Option.bind_some]
   rw [hfind]
   simp only [hpa, Except.map, hc3s, hc3w, e4, parseKids, mkwToYKw, qualName]
   simp
